@@ -36,6 +36,7 @@ type Engine struct {
 	Tier          int
 	Seed          int64
 	WallLimit     time.Duration
+	PathWall      time.Duration
 	InitPrefixes  []string // packages (path prefixes) whose initialisers are executed
 	Coverage      map[string]int
 	covMu         sync.Mutex
@@ -50,7 +51,7 @@ type intrinsicFn func(fr *frame, args []value) value
 
 func NewEngine(prog *ssa.Program) *Engine {
 	e := &Engine{
-		Prog: prog, MaxSteps: 5_000_000, MaxConcretize: 70, MaxPaths: 200000, MaxViolations: 300, Workers: 16,
+		Prog: prog, MaxSteps: 5_000_000, MaxConcretize: 70, MaxPaths: 200000, MaxViolations: 300, PathWall: 120 * time.Second, Workers: 16,
 		SolverTimeout: 20000, CrossTimeout: 5000, LIASolver: "cvc5", CrossSolver: "z3", CrossCheck: true, Coverage: map[string]int{},
 	}
 	e.intrinsics = map[string]intrinsicFn{}
@@ -175,6 +176,7 @@ type Machine struct {
 	pending   []pendingOb
 	builders  map[*value]value
 	lazyDev   int
+	t0        time.Time
 	cov       map[string]int
 	nonneg    map[*smt.Term]bool
 	chooseVals map[string]int
@@ -206,7 +208,10 @@ func (m *Machine) repairRanges(t *smt.Term) bool {
 		}
 		progress := false
 		for _, n := range needs {
-			if m.sess.OutOfRange(n.T, n.Lo, n.Hi) != smt.Unsat {
+			if r := m.sess.OutOfRange(n.T, n.Lo, n.Hi); r != smt.Unsat {
+				if os.Getenv("SYMGO_DEBUG_REPAIR") != "" {
+					fmt.Fprintf(os.Stderr, "repair failed (%v): %s in [%v,%v]\n", r, n.T.String(), n.Lo, n.Hi)
+				}
 				return false
 			}
 			m.lia.MarkRange(n.T, n.Lo, n.Hi)
@@ -232,6 +237,9 @@ func (m *Machine) needBV(ts ...*smt.Term) {
 			// offending sub-terms inside the range the integer view needs
 			if m.repairRanges(t) && m.sess.CanAssert(t) {
 				continue
+			}
+			if os.Getenv("SYMGO_DEBUG_REPAIR") != "" {
+				fmt.Fprintf(os.Stderr, "still not expressible: needs=%d %s\n", len(m.lia.Needs(t)), m.lia.Why(t))
 			}
 			ok = false
 			s := t.String()
@@ -730,6 +738,28 @@ func (e *Engine) RunHarness(fn *ssa.Function, keepModels int) *HarnessResult {
 				started++
 				mu.Unlock()
 
+				if ws != nil {
+					for _, s := range ws.procs {
+						if s.Dead() { // a solver process was lost: account for it and start fresh ones
+							for _, o := range ws.procs {
+								mu.Lock()
+								q := hr.Queries[o.Role]
+								for i := range q {
+									q[i] += o.Queries[i]
+								}
+								hr.Queries[o.Role] = q
+								hr.SolverTime[o.Role] += o.Time
+								if len(hr.SolverErrs) < 20 {
+									hr.SolverErrs = append(hr.SolverErrs, o.Errors...)
+								}
+								mu.Unlock()
+								o.Close()
+							}
+							ws = nil
+							break
+						}
+					}
+				}
 				if ws == nil {
 					ws = e.startSolvers()
 				}
@@ -873,7 +903,7 @@ func (e *Engine) runPath(fn *ssa.Function, it workItem, ws *workerSolvers) (pr *
 		eng: e, pool: smt.NewPool(), ws: ws, sess: ws.lia, lia: lia,
 		globals: map[*ssa.Global]*value{}, prefix: append([]int{}, it.prefix...), model: it.model,
 		cov: map[string]int{}, builders: map[*value]value{}, known: map[string]*smt.Term{}, nonneg: map[*smt.Term]bool{}, res: pr, harness: fn.Name(), onceDone: map[*value]bool{},
-		declared: map[string]bool{}, pcSet: map[*smt.Term]bool{}, chooseVals: map[string]int{},
+		t0: time.Now(), declared: map[string]bool{}, pcSet: map[*smt.Term]bool{}, chooseVals: map[string]int{},
 	}
 	if m.model == nil {
 		m.model = map[string]uint64{}
